@@ -3468,7 +3468,9 @@ impl Connection {
             );
             NewConnectionId {
                 sequence: issued.sequence,
-                retire_prior_to: self.local_cid_state.retire_prior_to(),
+                // A retransmitted frame may announce an ID older than what we have asked the
+                // peer to retire since; the field must never exceed the sequence number
+                retire_prior_to: cmp::min(self.local_cid_state.retire_prior_to(), issued.sequence),
                 id: issued.id,
                 reset_token: issued.reset_token,
             }
